@@ -229,7 +229,7 @@ def gen_c08_group(rng, gid, nhist, maxh):
         for _ in range(rng.randrange(0, 4)):
             h = rng.choice(hashes)
             ops.insert(rng.randrange(0, len(ops) + 1), {'op': 'list', 'p': h[:rng.randrange(0, min(16, depth + height + 2))]})
-        kind = ['plain', 'perm', 'dump', 'rebuild', 'gc', 'rebuild2'][hi % 6]
+        kind = ['plain', 'perm', 'dump', 'rebuild', 'gc', 'rebuild2', 'kill'][hi % 7]
         if kind in ('dump', 'rebuild'):
             rm = [] if kind == 'dump' else rng.choice(RM_KINDS[1:3])
             pos = len(ops) if rng.random() < 0.5 else rng.randrange(0, len(ops) + 1)
@@ -244,6 +244,16 @@ def gen_c08_group(rng, gid, nhist, maxh):
             pos = rng.choice(dels) if dels else rng.randrange(0, len(ops) + 1)
             ops[pos:pos] = [{'op': 'close'}, {'op': 'open', 'rm': rng.choice(RM_KINDS)}]
             ops += [{'op': 'close'}, {'op': 'open', 'rm': rng.choice(RM_KINDS[1:3])}]
+        elif kind == 'kill':
+            # clean restart (tree dump written), more history incl. the deletes, then an UNCLEAN stop: the next open loads
+            # that older dump (inner nodes cached as up to date) and replays sets and deletes over it
+            dels = [i for i, o in enumerate(ops) if o['op'] == 'del']
+            pos = rng.choice(dels) if dels and rng.random() < 0.8 else rng.randrange(0, len(ops) + 1)
+            ops[pos:pos] = [{'op': 'close'}, {'op': 'open', 'rm': []}]
+            if rng.random() < 0.5:      # a second clean restart in between moves later writes into a later data file
+                p2 = rng.randrange(pos + 2, len(ops) + 1)
+                ops[p2:p2] = [{'op': 'close'}, {'op': 'open', 'rm': []}]
+            ops += [{'op': 'kill'}, {'op': 'open', 'rm': []}]
         elif kind == 'gc':
             pos = rng.randrange(0, len(ops) + 1)
             ops[pos:pos] = [{'op': 'close'}, {'op': 'open', 'rm': rng.choice(RM_KINDS)}]
@@ -494,7 +504,7 @@ def run_one_mc(job):
 from concurrent.futures import ThreadPoolExecutor
 
 COUNTS = {  # (groups, histories per group, checkvh scenarios, populations) / routing scenarios
-    'C08': {'quick': (16, 6, 4, 6), 'thorough': (100, 6, 20, 30)},
+    'C08': {'quick': (16, 7, 4, 6), 'thorough': (100, 7, 20, 30)},
     'C15': {'quick': 48, 'thorough': 400},
 }
 
